@@ -295,6 +295,7 @@ partial def loop (h : IO.FS.Stream) (out : IO.FS.Stream) (st : St) : IO Unit := 
   if t.isEmpty || t.startsWith "#" then
     loop h out st
   else
+    let t := if t.startsWith "? " then (t.drop 2).toString else t
     let (st', o) := step st t
     out.putStrLn o
     loop h out st'
